@@ -115,6 +115,7 @@ func c01Key(rs *prng, vecs []vector, netName string, kind int) []byte {
 func runC01(seed uint64) {
 	p := loadOrGenPlan("c01", seed, genC01)
 	w := newWorld(seed, "C01", "c01")
+	w.wedgeIsViolation = true
 	faults := p.cfg("faults") == 1
 	w.res.Class = map[bool]string{true: "faults", false: "fault-free"}[faults]
 	vv := versionSets[p.cfg("vv")%3]
